@@ -13,7 +13,7 @@ static bool verif_alloc_fail;
 void *cjet_malloc(size_t size) { return malloc(size); }
 void *cjet_calloc(size_t nmemb, size_t size) { if (verif_alloc_fail) return NULL; return calloc(nmemb, size); }
 void cjet_free(void *ptr) { free(ptr); }
-char *duplicate_string(const char *s) { (void)s; return NULL; }
+char *duplicate_string(const char *s) { (void)s; return NULL; }   /* rule operands cannot be copied: a rule-carrying request ends in create_fetch's failure path */
 int jet_strcasecmp(const char *a, const char *b) { return strcasecmp(a, b); }
 int jet_strncasecmp(const char *a, const char *b, size_t n) { return strncasecmp(a, b, n); }
 const char *jet_strcasestr(const char *a, const char *b) { return strcasestr(a, b); }
@@ -23,9 +23,19 @@ bool has_access(group_t has, group_t wants) { return (has & wants) != 0; }
 bool element_is_fetch_only(const struct element *e) { return (e->flags & FETCH_ONLY_FLAG) != 0; }
 static struct list_head verif_peer_list;
 const struct list_head *get_peer_list(void) { return &verif_peer_list; }
-cJSON *create_error_response_from_request(const struct peer *p, const cJSON *request, int code, const char *tag, const char *reason) { (void)p; (void)request; (void)code; (void)tag; (void)reason; return NULL; }
+static unsigned verif_responses_built;   /* responses handed back to the caller (each must be returned or deleted exactly once) */
+static cJSON *verif_new_response(void) { bool saved = verif_cj_may_fail; verif_cj_may_fail = false; cJSON *r = cJSON_CreateObject(); verif_cj_may_fail = saved; if (r != NULL) verif_responses_built++; return r; }
+cJSON *create_error_response_from_request(const struct peer *p, const cJSON *request, int code, const char *tag, const char *reason) { (void)p; (void)request; (void)code; (void)tag; (void)reason; return nondet_bool() ? verif_new_response() : NULL; }
 cJSON *create_success_response_from_request(const struct peer *p, const cJSON *request) { (void)p; (void)request; return NULL; }
-cJSON *create_result_response_from_request(const struct peer *p, const cJSON *request, cJSON *result, const char *t) { (void)p; (void)request; (void)t; cJSON_Delete(result); return NULL; }
+static bool verif_result_was_null; static unsigned verif_result_entries;
+cJSON *create_result_response_from_request(const struct peer *p, const cJSON *request, cJSON *result, const char *t)
+{
+	(void)p; (void)request; (void)t;
+	verif_result_was_null = result == NULL; verif_result_entries = 0;
+	if (result != NULL) for (const cJSON *c = result->child; c != NULL; c = c->next) verif_result_entries++;
+	cJSON_Delete(result);   /* ownership contract proved by resp.from_request / resp.result */
+	return result != NULL && nondet_bool() ? verif_new_response() : NULL;
+}
 
 /* three subscriber peers; each one's socket either accepts or fails (fixed per run, arbitrary) */
 #define NP 3
@@ -215,4 +225,96 @@ void h_fx_dropall(void)
 	__CPROVER_assert(list_empty(&verif_peer[1].fetch_list), "C05.fetch.all-fetches-of-the-peer-ended");
 	__CPROVER_assert(verif_attempts[0] == 0 && verif_attempts[1] == 0 && verif_attempts[2] == 0, "C01.unfetch.nothing-delivered-for-an-ended-fetch");
 	VERIF_COVER(other_before[0] && other_before[TBL - 1] == false, "mixed table");
+}
+
+/* ---- fx.getelement: one element's contribution to the snapshot answered to "get" -------------------------------- */
+#ifndef FX_GET_FAIL
+#define FX_GET_FAIL 0
+#endif
+void h_fx_getelement(void)
+{
+	world();
+	cJSON *states = cJSON_CreateArray();
+	__CPROVER_assume(states != NULL);
+	cJSON request; cJSON any; request = any;
+	request.type = cJSON_Object; request.next = request.prev = request.child = NULL; request.string = NULL; request.valuestring = NULL;
+	cJSON *response = NULL;
+	verif_cj_may_fail = FX_GET_FAIL;   /* C15: every JSON allocation made while the entry is built may fail */
+	int r = get_element(&verif_peer[1], &request, &verif_e, &verif_f[1], states, &response);
+	verif_cj_may_fail = false;
+	bool visible = ((verif_e.fetch_groups & verif_peer[1].fetch_groups) != 0) && verif_e.value != NULL;
+	unsigned entries = 0;
+	for (const cJSON *c = states->child; c != NULL; c = c->next) entries++;
+	__CPROVER_assert(r == 0 || r == -1, "C02.get.result-is-success-or-failure");
+	if (!FX_GET_FAIL) __CPROVER_assert(r == 0, "C02.get.no-failure-without-a-failing-allocation");
+	if (r == 0) {
+		__CPROVER_assert(entries == (visible ? 1u : 0u), "C08.get.exactly-the-visible-states-with-a-value-are-listed");
+		if (entries == 1) {
+			const cJSON *s = states->child;
+			const cJSON *path = cJSON_GetObjectItem(s, "path"), *value = cJSON_GetObjectItem(s, "value");
+			unsigned members = 0;
+			for (const cJSON *c = s->child; c != NULL; c = c->next) members++;
+			bool path_ok = false, value_ok = false;
+			if (path != NULL && path->type == cJSON_String && path->valuestring != NULL) path_ok = path->valuestring[0] == verif_epath[0] && path->valuestring[1] == 0;
+			if (value != NULL) value_ok = value->type == cJSON_Number && value->valuedouble == 1;
+			__CPROVER_assert(s->type == cJSON_Object && members == 2 && path_ok && value_ok, "C15.get.a-listed-state-is-complete-path-and-current-value");
+		}
+	} else {
+		__CPROVER_assert(entries == 0, "C15.get.a-failed-entry-is-not-listed");
+	}
+	cJSON_Delete(states);
+	__CPROVER_assert((response != NULL) == (verif_responses_built == 1) && verif_responses_built <= 1 && (r == 0 ? response == NULL : true), "C02.get.an-entry-builds-at-most-the-error-response-it-hands-back");
+	if (response != NULL) cJSON_Delete(response);   /* handed to the caller, which returns it */
+	__CPROVER_assert(verif_cj_live_nodes == 0, "C15.get.no-json-node-left-behind");
+	VERIF_COVER(r == 0 && entries == 1, "state listed");
+	VERIF_COVER(r == 0 && !visible && verif_e.value != NULL, "state hidden from the fetching peer's groups");
+#if FX_GET_FAIL
+	VERIF_COVER(r == -1, "entry lost to an allocation failure");
+#endif
+}
+
+/* ---- fx.getall: get_elements - the whole "get" handler over one peer owning one state ------------------------- */
+void h_fx_getall(void)
+{
+	world();
+	INIT_LIST_HEAD(&verif_peer_list);
+	list_add_tail(&verif_peer[0].next_peer, &verif_peer_list);
+	INIT_LIST_HEAD(&verif_e.element_list);
+	list_add_tail(&verif_e.element_list, &verif_peer[0].element_list);
+	cJSON request, params; cJSON any; request = any; params = any;
+	char pname[7] = "params";
+	params.type = cJSON_Object; params.next = params.prev = params.child = NULL; params.string = pname; params.valuestring = NULL;
+	request.type = cJSON_Object; request.next = request.prev = NULL; request.child = &params; request.string = NULL; request.valuestring = NULL;
+#ifdef FX_GET_PATH
+	/* params: {path: {startsWith: <the state's one-character path>}} - the rule path of create_fetch */
+	cJSON path, rule; path = any; rule = any;
+	char pathname[5] = "path", rulename[11] = "startsWith", operand[2];
+	operand[0] = verif_epath[0]; operand[1] = 0;
+	rule.type = cJSON_String; rule.next = rule.prev = rule.child = NULL; rule.string = rulename; rule.valuestring = operand;
+	path.type = cJSON_Object; path.next = path.prev = NULL; path.child = &rule; path.string = pathname; path.valuestring = NULL;
+	params.child = &path;
+#endif
+	verif_alloc_fail = FX_GET_FAIL ? nondet_bool() : false;
+	verif_cj_may_fail = FX_GET_FAIL;
+	cJSON *r = get_elements(&request, &verif_peer[1]);
+	verif_cj_may_fail = false;
+	__CPROVER_assert(verif_responses_built == (r != NULL ? 1u : 0u), "C02.get.exactly-the-returned-response-was-built");
+	if (!FX_GET_FAIL) {
+		bool visible = ((verif_e.fetch_groups & verif_peer[1].fetch_groups) != 0) && verif_e.value != NULL;
+		__CPROVER_assert(!verif_result_was_null && verif_result_entries == (visible ? 1u : 0u), "C08.get.answer-lists-exactly-the-visible-states");
+	}
+	if (r != NULL) cJSON_Delete(r);
+	__CPROVER_assert(verif_cj_live_nodes == 0, "C15.get.handler-leaves-no-json-node-behind");
+#ifndef FX_GET_PATH
+	VERIF_COVER(r != NULL && verif_result_entries == 1, "answer with one state");
+#else
+	VERIF_COVER(r != NULL && !verif_alloc_fail, "rule refused: error answer");
+#endif
+#if FX_GET_FAIL && !defined(FX_GET_PATH)
+	VERIF_COVER(verif_alloc_fail, "fetch record not allocated");
+	VERIF_COVER(r != NULL && verif_result_entries == 0 && verif_e.value != NULL && (verif_e.fetch_groups & verif_peer[1].fetch_groups) != 0, "error answer after a failed entry");
+#endif
+#if FX_GET_FAIL && defined(FX_GET_PATH)
+	VERIF_COVER(verif_alloc_fail && r != NULL, "fetch record not allocated, error answer");
+#endif
 }
